@@ -138,6 +138,13 @@ def rule_A2_A3(ctx, rep):
                    'writer built with MultiLineWriter::new (terminator "\\n")' if ok3 else 'writer built with terminator %s' % fmt(ct[2][2]))
             # A2: capacity is 512, or a parameter passed through, or param.unwrap_or(512)
             verdict, why = _cap_ok(cap)
+            if verdict:
+                # which parameter: the buffer size is the last size-typed parameter of the public signature (the spy sink
+                # also takes a queue bound in front of it - mixing the two up type-checks)
+                sized = [i_ for i_ in range(1, cb.arg_count + 1) if cb.locals[i_].replace(' ', '') in ('usize', 'core::option::Option<usize>')]
+                used = set(y[1] for y in walk(norm(cap)) if y[0] == 'param')
+                if used and sized and used != {sized[-1]}:
+                    verdict, why = False, 'the line buffer is sized from parameter %s of %s::%s, the buffer size is parameter %d' % (sorted(used), name, cb.name, sized[-1])
             rep.ob('A2', '%s::%s/capacity' % (name, cb.name), verdict, body.where(news[0]), why)
     rep.floor('A2', 'sink constructors analysed', nctor, 6)
 
@@ -378,6 +385,8 @@ def rule_no_implicit_flush(ctx, rep, rid='G4'):
             if callee_is(t, SINK_TRAIT + '::flush'):
                 n += 1
                 if b.path not in allowed and not any(b.path.startswith(p_ + '::') for p_ in allowed):
+                    if b.impl_trait is None and b.def_kind == 'AssocFn' and b.j.get('reachable') and b.impl_self:
+                        continue        # a public inherent method (`close(self)`, `flush_now(&self)`): the user asked for it
                     bad.append((b, bi))
     rep.floor(rid, 'calls of MetricSink::flush in the crate', n, 2)
     rep.sites(n)
